@@ -908,3 +908,59 @@ def r10m_import_reads_are_transitive(ctx):
                                    "module re-exports are not seen" % (gid.split("::")[-1], op.ident.split(".")[-1], crate.span_str(op.call["span"])))
     r.floor("definition-index reads in the import computation", n, 1)
     return r
+
+
+def r10n_excludes_from_loaded_config(ctx):
+    r = Result("R10n", "what the workspace walk is told to exclude comes from the configuration loaded for this root: where an "
+                       "argument of the walk originates from a read of the shared configuration (`RwLock<Config>::read`), that read "
+                       "is dominated, in the same function, by the write that stores the loader's result. A read taken before the "
+                       "configuration is loaded (the load moved into the background task, the patterns still cloned on the "
+                       "initialize path) scans with the default -- empty -- exclude list")
+    crate = ctx.bin
+    db = _db(ctx)
+    walk = discovery_fn(ctx)
+    if walk is None:
+        r.anchor_missing("workspace walk", "not found")
+        return r
+    # the loader, by role (as in R10k)
+    loaders = set()
+    for f in crate.real_fns():
+        if f.kind in ("fn", "method") and any(re.search(r"std::fs::read_to_string", c.get("res") or "") for _b, c in f.calls()):
+            lits = set()
+            for g in [x for x in crate.real_fns() if x.root == f.id]:
+                for bb, c in g.calls():
+                    if re.search(r"path::Path::join$", c.get("res") or ""):
+                        for a in c["args"][1:]:
+                            lits |= literals_reaching(g, a)
+            if "pyproject.toml" in lits:
+                loaders.add(f.id)
+    n = 0
+    for f in crate.real_fns():
+        for bb, c in f.calls():
+            if c.get("res") != walk.id:
+                continue
+            for i, a in enumerate(c["args"]):
+                for t in db.origins.of_operand(f, a):
+                    if t[0] != "call" or not re.search(r"RwLock::<T>::read", t[2] or ""):
+                        continue
+                    fields = t[3] if len(t) > 3 and isinstance(t[3], tuple) else ()
+                    if not any("Config" in o for o, _n in fields):
+                        continue
+                    n += 1
+                    R = crate.fns.get(t[1])
+                    key = "R10n|%s|walk argument %d read before the configuration is loaded" % (f.root, i)
+                    if R is None:
+                        r.violate(key, "origin function %s not found" % t[1])
+                        continue
+                    dom = R.dominators()
+                    reads = [b for b, c2 in R.calls() if re.search(r"RwLock::<T>::read", c2.get("res") or "") and "Config" in " ".join(c2.get("targs", []))]
+                    writes = [b for b, c2 in R.calls() if re.search(r"RwLock::<T>::write", c2.get("res") or "") and "Config" in " ".join(c2.get("targs", []))]
+                    loads = [b for b, c2 in R.calls() if c2.get("res") in loaders]
+                    ok = bool(reads) and all(any(w in dom.get(rb, set()) and any(l in dom.get(w, set()) for l in loads) for w in writes) for rb in reads)
+                    if ok:
+                        r.ok(sample={"walk_argument": i, "read_in": R.id.split("::")[-2:], "after_load_and_store": True})
+                    else:
+                        r.violate(key, "%s reads the shared configuration for the walk's argument %d without a dominating "
+                                       "load-and-store of the configuration in the same function" % (R.id, i))
+    r.counts["walk_arguments_read_from_shared_configuration"] = n  # no floor: patterns handed over as a local have no such read
+    return r
